@@ -8,6 +8,7 @@
 package main
 
 import (
+	"io"
 	"bufio"
 	"context"
 	"encoding/hex"
@@ -199,6 +200,8 @@ type H struct {
 	lastState string
 	steps   int
 	noops   int
+	rs      *rand.Rand // scenario choices (the same for a crash history and its crash-free twin)
+	twin    string     // outcome summary of the crash-free twin ("" = none)
 	raw     map[configapi.ConfigurationID]_map.Map[string, *configapi.PathValue]
 }
 
@@ -215,6 +218,7 @@ func newH(seed int64, hid string, out *bufio.Writer, ntargets int, persistent ma
 	h := &H{devs: map[string]*fakes.Device{}, devPos: map[string]int{}, policy: map[string][]codes.Code{},
 		crash: &crashCtl{budget: -1}, r: rand.New(rand.NewSource(seed)), out: out, hid: hid, knownC: map[string]bool{}, lastVerdict: -1,
 		raw: map[configapi.ConfigurationID]_map.Map[string, *configapi.PathValue]{}}
+	h.rs = h.r
 	h.plugin = &fakes.PluginClient{Name: ttype, Version: tversion}
 	for _, p := range []string{"/a/b", "/a/bc", "/a/c", "/a/d/e", "/z", "/q", "/l[k=*]/v", "/l[k=*]/k", "/l[k=*]/w"} {
 		h.plugin.RW = append(h.plugin.RW, fakes.RWPath(p, configapi.ValueType_STRING, strings.HasSuffix(p, "]/k"), p[strings.LastIndex(p, "/")+1:]))
@@ -889,7 +893,7 @@ var paths = []string{"/a/b", "/a/bc", "/a/c", "/a/d/e", "/z", "/l[k=1]/v", "/l[k
 var delPaths = []string{"/a/b", "/a", "/a/c", "/a/d", "/z", "/l[k=1]", "/l[k=1]/v", "/l", "/a/bc", "/l[k=10]"}
 
 func (h *H) genOps(maxTargets int, bad bool) []op {
-	r := h.r
+	r := h.rs
 	nt := 1 + r.Intn(maxTargets)
 	ts := r.Perm(len(h.targets))[:min(nt, len(h.targets))]
 	ops := []op{}
@@ -975,14 +979,19 @@ func (h *H) randomSteps(n int, crashProb int) {
 }
 
 // settle runs passes over every id until a complete pass changes nothing
-func (h *H) settle(maxPasses int) bool {
+func (h *H) settle(maxPasses int, crashProb int) bool {
 	for p := 0; p < maxPasses; p++ {
 		before := h.lastState
 		n0 := h.devTotal()
 		ids := h.allIDs()
 		h.r.Shuffle(len(ids), func(i, j int) { ids[i], ids[j] = ids[j], ids[i] })
 		for _, id := range ids {
-			h.reconcile(id, -1)
+			budget := -1
+			// in crash histories the first passes still interrupt reconciles (most of the work happens here)
+			if crashProb > 0 && p < 12 && h.r.Intn(100) < crashProb {
+				budget = 1 + h.r.Intn(4)/3
+			}
+			h.reconcile(id, budget)
 		}
 		if h.lastState == before && h.devTotal() == n0 {
 			return true
@@ -1020,7 +1029,7 @@ func (h *H) getLeaves(t string) string {
 	return strings.Join(ls, ",")
 }
 
-func (h *H) finish(quiescent bool) {
+func (h *H) finish(quiescent bool) string {
 	// answers of the northbound calls
 	var b strings.Builder
 	for i, c := range h.nb {
@@ -1046,7 +1055,31 @@ func (h *H) finish(quiescent bool) {
 	if quiescent {
 		q = 1
 	}
-	fmt.Fprintf(h.out, "p2.end\t%s\t%d\t(nb %s)\t%s\t%d\t%d\n", h.hid, q, b.String(), strings.Join(gets, ";"), h.steps, h.noops)
+	// outcome summary: final state and failure of every transaction, what Get returns and what the device holds per target
+	var sm strings.Builder
+	txs, _ := h.e.Txs.List(context.Background())
+	sort.Slice(txs, func(i, j int) bool { return txs[i].Index < txs[j].Index })
+	for _, t := range txs {
+		fmt.Fprintf(&sm, "tx%d:%s:%s,", t.Index, t.Status.State.String(), failStr(t.Status.Failure))
+	}
+	sm.WriteString("|" + strings.Join(gets, ";") + "|")
+	for _, t := range h.targets {
+		sm.WriteString(tnum(t) + "=")
+		for _, l := range h.devs[t].Leaves() {
+			sm.WriteString(hx(l) + ",")
+		}
+		sm.WriteString(";")
+	}
+	sum := sm.String()
+	if !quiescent {
+		sum = "notquiescent"
+	}
+	tw := h.twin
+	if tw == "" {
+		tw = "-"
+	}
+	fmt.Fprintf(h.out, "p2.end\t%s\t%d\t(nb %s)\t%s\t%d\t%d\t%s\t%s\n", h.hid, q, b.String(), strings.Join(gets, ";"), h.steps, h.noops, sum, tw)
+	return sum
 }
 
 // emitChunks prints the chunking of every validation stream of this history (property C05):
@@ -1072,16 +1105,73 @@ func (h *H) emitChunks() {
 	fmt.Fprintf(h.out, "p2.chunks\t%s\t%s\t%s\n", h.hid, strings.Join(ss, ";"), strings.Join(shas, ";"))
 }
 
+// runChunks drives one Set with a value larger than the plugin's chunk size (and a small one after it) through the real
+// reconcilers and the real plugin registry and prints ONLY the chunking of the validation streams (p2.chunks): the
+// steps are not traced (a traced history with 100 kB values costs minutes of checking; one runs in the thorough tier).
+func runChunks(seed int64, k int, out *bufio.Writer) {
+	hid := fmt.Sprintf("%d.c%d", seed, k)
+	h := newH(seed*104729+int64(k), hid, bufio.NewWriter(io.Discard), 1, map[string]bool{})
+	r := h.r
+	h.lastState = h.dump()
+	var ln int // the document of the first Set is ln + 14 bytes long
+	switch k % 6 {
+	case 0:
+		ln = 99985 // 99999
+	case 1:
+		ln = 99986 // 100000
+	case 2:
+		ln = 99987 // 100001
+	case 3:
+		ln = 199985 + r.Intn(3) // 199999 .. 200001
+	case 4:
+		ln = 100000 + r.Intn(100000)
+	default:
+		ln = 250000 + r.Intn(50000)
+	}
+	if r.Intn(2) == 0 {
+		h.connUp(h.targets[0])
+	}
+	h.nbSet([]op{{target: h.targets[0], path: "/z", val: "v" + strings.Repeat("x", ln)}}, true, false)
+	h.settle(80, 0)
+	h.nbSet([]op{{target: h.targets[0], path: "/q", val: fmt.Sprintf("v%d", r.Intn(1000))}}, true, false)
+	q := h.settle(80, 0)
+	h.finish(q)
+	h.out = out
+	h.emitChunks()
+	for _, c := range h.e.Conns.IDs() {
+		h.e.Conns.RemoveConn(c[0])
+	}
+	h.e.Atomix.Close()
+}
+
+// runHistory: crash histories are run twice with the same scenario - first without any interruption (the twin), then
+// with reconciles stopped half way; the two outcomes must be the same (property C07)
 func runHistory(seed int64, n int, out *bufio.Writer, kind string) {
+	if kind == "crash" {
+		twin := runScenario(seed, n, out, "twin", "t", "")
+		runScenario(seed, n, out, "crash", "", twin)
+		return
+	}
+	runScenario(seed, n, out, kind, "", "")
+}
+
+func runScenario(seed int64, n int, out *bufio.Writer, kind string, suffix string, twin string) string {
 	r0 := rand.New(rand.NewSource(seed*1000003 + int64(n)))
 	nt := 1 + r0.Intn(3)
 	pers := map[string]bool{}
 	if r0.Intn(10) == 0 {
 		pers["t1"] = true
 	}
-	hid := fmt.Sprintf("%d.%d", seed, n)
-	h := newH(seed*7919+int64(n), hid, out, nt, pers)
-	r := h.r
+	hid := fmt.Sprintf("%d.%d%s", seed, n, suffix)
+	sched := seed*7919 + int64(n)
+	if suffix != "" {
+		sched = sched*31 + 17
+	}
+	h := newH(sched, hid, out, nt, pers)
+	h.rs = rand.New(rand.NewSource(seed*104729 + int64(n)))
+	h.twin = twin
+	r := h.rs
+	deterministic := kind == "crash" || kind == "twin" // no device error bursts: which request meets them depends on the schedule
 	fmt.Fprintf(out, "p2.hist\t%s\t%s\t%s\n", hid, kind, h.dump())
 	h.lastState = h.dump()
 	crashProb := 0
@@ -1094,17 +1184,17 @@ func runHistory(seed int64, n int, out *bufio.Writer, kind string) {
 			h.connUp(t)
 		}
 	}
-	h.randomSteps(r.Intn(6), 0)
+	h.randomSteps(h.r.Intn(6), 0)
 	nev := 2 + r.Intn(5)
-	if kind == "atomic" && n%97 == 3 {
+	if kind == "atomic" && n%97 == 90 { // only reached in the thorough tier (n >= 91): a fully traced history costs ~2 min of checking
 		// one Set whose value is larger than the plugin's chunk size (100 kB): the validation document is streamed in
 		// several chunks; lengths around the boundaries 100000 / 200000 and in between (property C05, p2.chunks)
-		var ln int // the document is ln + 10 bytes long
+		var ln int // the document is ln + 14 bytes long
 		switch r.Intn(3) {
 		case 0:
-			ln = 99988 + r.Intn(5)
+			ln = 99984 + r.Intn(5)
 		case 1:
-			ln = 199988 + r.Intn(5)
+			ln = 199984 + r.Intn(5)
 		default:
 			ln = 100000 + r.Intn(100000)
 		}
@@ -1143,6 +1233,8 @@ func runHistory(seed int64, n int, out *bufio.Writer, kind string) {
 			h.connUp(env.Pick(r, h.targets)) // possibly a second, competing connection
 		case k < 17:
 			h.devRestart(env.Pick(r, h.targets))
+		case k < 18 && deterministic:
+			h.connUp(env.Pick(r, h.targets))
 		case k < 18:
 			t := env.Pick(r, h.targets)
 			cds := []codes.Code{codes.Unavailable, codes.Canceled, codes.DeadlineExceeded, codes.InvalidArgument, codes.Internal, codes.NotFound,
@@ -1159,7 +1251,7 @@ func runHistory(seed int64, n int, out *bufio.Writer, kind string) {
 		default:
 			h.rawTx("t9", "noplugin", "/z", "v1") // a target of a type without model plugin (and no topo entity)
 		}
-		h.randomSteps(r.Intn(16), crashProb)
+		h.randomSteps(h.r.Intn(16), crashProb)
 	}
 	// settle: connect everything that is offline, clear error policies, run to a fixed point
 	if r.Intn(5) != 0 {
@@ -1170,13 +1262,14 @@ func runHistory(seed int64, n int, out *bufio.Writer, kind string) {
 			h.policy[t] = nil
 		}
 	}
-	q := h.settle(80)
-	h.finish(q)
+	q := h.settle(80, crashProb)
+	sum := h.finish(q)
 	h.emitChunks()
 	for _, c := range h.e.Conns.IDs() {
 		h.e.Conns.RemoveConn(c[0])
 	}
 	h.e.Atomix.Close()
+	return sum
 }
 
 func main() {
@@ -1207,6 +1300,12 @@ func main() {
 	for i := 0; i < *ncrash; i++ {
 		if i%*shards == *shard {
 			runHistory(*seed, 100000+i, out, "crash")
+		}
+	}
+	// chunking of large validation documents (property C05), untraced
+	for k := 0; k < 6; k++ {
+		if k%*shards == *shard {
+			runChunks(*seed, k, out)
 		}
 	}
 }
